@@ -80,9 +80,15 @@ def main():
                               "no_longer_checks": {k2: (v2[:2] if isinstance(v2, list) else v2) for k2, v2 in (r.get("no_longer_checks") or {}).items()}}
                     except Exception:  # noqa: BLE001
                         pass
-                results[c] = {"rc": rc, "violation_line": viol[0] if viol else None, "summary": summ[-1] if summ else o[-300:], "replay": rp}
+                results[c] = {"rc": rc, "violation_line": viol[0] if viol else None, "summary": summ[-1] if summ else o[-300:], "replay": rp,
+                              "replay_file": (viol[0].split("replay=")[1].split()[0] if viol and "replay=" in viol[0] else None)}
         finally:
             sh("git checkout -- .", cwd="/repo")
+        # keep the failing input as a corpus case of the check that found it (validated on the clean tree)
+        for c, r in results.items():
+            if r.get("replay_file") and isinstance(r.get("replay"), dict) and r["replay"].get("kind") == "failing-input":
+                rc2, o2 = sh(f"SWCGEOM_VERIF=1 PYTHONPATH={V} {PY} harness/corpus_add.py {c} {r['replay_file']} seed_{sid}", cwd=V, timeout=900)
+                r["corpus"] = o2.strip().splitlines()[-1] if o2.strip() else ""
         rec["checks"] = results
         rec["caught"] = any(r["rc"] == 1 and r["violation_line"] for r in results.values())
         rec["caught_with_failing_input"] = any(r["rc"] == 1 and r["violation_line"] and "no-failing-input-found" not in r["violation_line"] for r in results.values())
